@@ -148,7 +148,7 @@ def generate_fa_spectrum(sig, n_pad=True):
         fa = np.fft.fft(sig.values)
         points = int(sig.npts / 2)
     fa_spectrum = fa[range(points)] * sig.dt
-    fa_frequencies = np.arange(points) / (2 * points * sig.dt)
+    fa_frequencies = np.arange(points) / (len(fa) * sig.dt)
     return fa_spectrum, fa_frequencies
 
 
@@ -180,7 +180,7 @@ def calc_fa_spectrum(sig, n=None, p2_plus=None):
         fa = np.fft.fft(sig.values)
         points = int(sig.npts / 2)
     fa_spectrum = fa[range(points)] * sig.dt
-    fa_frequencies = np.arange(points) / (2 * points * sig.dt)
+    fa_frequencies = np.arange(points) / (len(fa) * sig.dt)
     return fa_spectrum, fa_frequencies
 
 
